@@ -55,9 +55,27 @@ def network_edges(sim, modules=None):
     return out
 
 
+def delivery_records(sim, modules=None):
+    """ outcome lists / queues kept by interventions outside their agent arrays """
+    out = {}
+    for name, iv in sim.interventions.items():
+        if modules is not None and name not in modules: continue
+        oc = getattr(iv, 'outcomes', None)
+        if isinstance(oc, dict):
+            for k, v in oc.items():
+                try: out[f'{name}.outcomes.{k}'] = np.sort(np.asarray(v, dtype=float))
+                except Exception: pass
+        q = getattr(iv, 'queue', None)
+        if isinstance(q, (list, np.ndarray)):
+            try: out[f'{name}.queue'] = np.asarray(q, dtype=float)
+            except Exception: pass
+    return out
+
+
 def everything(sim, modules=None):
     out = {}
     out.update(results(sim, modules)); out.update(states(sim, modules)); out.update(network_edges(sim, modules))
+    out.update(delivery_records(sim, modules))
     return out
 
 
